@@ -229,6 +229,8 @@ def decoder_state(recipe, s, plugins, skip_plugins):
         return None
     c = pelgen.section_creator(recipe, s)
     if c == "O" and s["comp"] == 0x2000:
+        if s.get("badjson"):
+            return "builtin-badjson"
         return {1: "builtin-json", 3: "builtin-text"}.get(s["subtype"], "builtin-hex")
     if skip_plugins:
         return "disabled"
